@@ -38,14 +38,24 @@ EDITS = {
    "        if shapef[1] == 'RGB':\n            image = self.__image\n\n            if image is False:\n                return self\n            if not image.flags.writeable:\n                return self\n\n            new_image = image.copy()\n            new       = Frame(new_image, self, 'RGB')\n"),
  ],
  'openfilter/filter_runtime/filter.py': [
+  ("            if (new_mq_log := MQ.LOG_MAP.get(mq_log)) is None:\n                raise ValueError(f'invalid mq_log {mq_log!r}, must be one of {list(MQ.LOG_MAP)}')\n            else:\n                config.mq_log = new_mq_log\n",
+   "            if (new_mq_log := MQ.LOG_MAP.get(mq_log)) is None:\n                raise ValueError(f'invalid mq_log {mq_log!r}, must be one of {list(MQ.LOG_MAP)}')\n\n            config.mq_log = new_mq_log\n"),
   ("            self.stop_evt.set()\n            if hasattr(self, 'emitter') and self.emitter is not None:\n                self.emitter.stop_lineage_heart_beat()\n",
    "            self.stop_evt.set()\n            if getattr(self, 'emitter', None) is not None:\n                self.emitter.stop_lineage_heart_beat()\n"),
  ],
  'openfilter/filter_runtime/utils.py': [
   ("    return re_sub_uri_user_and_pwd.sub(r'\\g<1>****\\g<2>', text)\n", "    masked = re_sub_uri_user_and_pwd.sub(r'\\g<1>****\\g<2>', text)\n\n    return masked\n"),
  ],
+ 'openfilter/cli/common.py': [
+  ("            nextarg = args[-1] if args else None\n", "            nextarg = None if not args else args[-1]\n"),
+ ],
+ 'openfilter/observability/lineage.py': [
+  ("                raw_data = self.facets if event_type == RunState.RUNNING else facets\n                data_to_use = dict(raw_data or {})\n",
+   "                if event_type == RunState.RUNNING:\n                    raw_data = self.facets\n                else:\n                    raw_data = facets\n                data_to_use = dict(raw_data) if raw_data else {}\n"),
+ ],
 }
-RENAMES = {  # consistent renaming of a local inside one file (whole-word)
+RENAMES = {
+ 'openfilter/filter_runtime/rolllog.py': [('logfile2', 'stale_file'), ('new_logfiles_size', 'grown_size')],  # consistent renaming of a local inside one file (whole-word)
  'openfilter/filter_runtime/zeromq.py': [('sender_eph', 'from_eph')],
 }
 for rel, edits in EDITS.items():
